@@ -62,8 +62,8 @@ CLAIMS = {
         note="Fragments are wrapped as functions over their free variables (self->this, continue->return). Assumed: contracts of RangeInclusiveSet::overlapping, HashMap get/entry().or_default(), cmp::max/min on &newtype. Partial branches (closure chains) are NOT decided.",
     ),
     "C18": dict(
-        technique="Verus contract on the extracted real Members::remove_member / MemberState::{new,is_ring0} (maps of any size); Kani inductive transition contracts on the extracted add_member / add_rtt / recalculate_rings / ring0 (bounded state, labelled bounded); replay search on the real crate",
-        text="remove_member, MemberState::new and is_ring0 are proved unbounded in Verus against the newest-identity statement. add_member, add_rtt/recalculate_rings and ring0 use closures Verus cannot take; they are checked by Kani as inductive steps from an arbitrary state with <=2 members (history length unbounded, state size bounded) and are reported as bounded stand-ins, not as proved.",
+        technique="Verus contracts on the extracted real Members::{remove_member, add_member, add_rtt} / MemberState::{new,is_ring0} (maps of any size; add_member's or_insert_with desugared to the entry match); Kani inductive transition contracts on the extracted add_member / recalculate_rings / ring0 (bounded state, labelled bounded); replay search on the real crate",
+        text="remove_member, add_member (an older or equal identity changes nothing; a newer one replaces address, timestamp and cluster id and re-indexes the address; an unknown peer is listed as announced; other members' identities untouched), add_rtt's sample, MemberState::new and is_ring0 are proved unbounded in Verus against the newest-identity statement. recalculate_rings and ring0 are closure/iterator chains Verus cannot take; they (and add_member again, with its address-index invariant) are checked by Kani as inductive steps from an arbitrary state with <=2 members (history length unbounded, state size bounded) and are reported as bounded stand-ins, not as proved.",
         note="Assumed: std BTreeMap contract; Kani unit replaces BTreeMap/CircularBuffer/ActorId/SocketAddr/Timestamp by small stand-ins (listed in evidence). SWIM premise: live peers do not share an address; down notifications carry the identity's own address.",
     ),
     "C12": dict(
